@@ -6,15 +6,15 @@ cd "$(dirname "$0")" || exit 2
 export GOFLAGS=-mod=mod GOPROXY=off GOSUMDB=off GOTOOLCHAIN=local
 id="$1"; tier="$2"; shift 2
 # The checks compile thousands of generated packages: they use their own Go build cache and
-# keep it bounded (entries not used recently are dropped once the cache exceeds ~25 GB; the
+# keep it bounded (entries not used recently are dropped once the cache exceeds ~15 GB; the
 # go command treats a missing entry as a cache miss).
 export GOCACHE="${VERIF_GOCACHE:-$PWD/.work/gocache}"
 mkdir -p "$GOCACHE"
 sz=$(du -sm "$GOCACHE" 2>/dev/null | cut -f1)
-if [ "${sz:-0}" -gt 25000 ]; then
-  find "$GOCACHE" -type f -mmin +120 -delete 2>/dev/null
+if [ "${sz:-0}" -gt 15000 ]; then
+  find "$GOCACHE" -type f -mmin +90 -delete 2>/dev/null
   sz=$(du -sm "$GOCACHE" 2>/dev/null | cut -f1)
-  if [ "${sz:-0}" -gt 50000 ]; then find "$GOCACHE" -type f -mmin +30 -delete 2>/dev/null; fi
+  if [ "${sz:-0}" -gt 30000 ]; then find "$GOCACHE" -type f -mmin +20 -delete 2>/dev/null; fi
 fi
 lc=$(echo "$id" | tr 'A-Z' 'a-z')
 mkdir -p bin evidence replays
